@@ -1,13 +1,16 @@
-\* schedule generator (-simulate): behaviours of Failover.tla, printed when the logical log has been read
+\* schedule generator (-simulate): behaviours of Failover.tla (ring of QCap slots, doubling), printed when the logical log has been read
 SPECIFICATION Spec
 CONSTANTS
   N = 6
   W = 4
   SyncSet = {2, 3, 5, 6}
+  QCap = 2
   MaxFaults = 1
   BugDedupLT = FALSE
   BugNoReplay = FALSE
   BugPopBeyondSync = FALSE
+  BugGrowCopyUnwrapped = FALSE
+  BugReclaimAfterPut = FALSE
   GenMode = TRUE
 INVARIANT Inv
 INVARIANT EmitJson
